@@ -196,6 +196,22 @@ Inst decode(Tape &t, bool thorough) {
 bool prop(Tape &t, Report &R) {
   Inst in = decode(t, R.thorough());
   in.history = t.weighted({3, 1, 1, 1});  // decided last
+  // decided last: many sinks on very few positions (17..30 sinks of positive demand sharing 1..3
+  // positions): ties everywhere in the position order
+  {
+    uint32_t cw = t.next();
+    if (cw % 6 == 1 && !in.v.empty()) {
+      size_t kpos = 1 + (cw >> 4) % 3;
+      for (size_t j = 0; j < in.v.size(); ++j) in.v[j] = in.v[j % std::min(kpos, in.v.size())];
+      size_t want = 17 + (cw >> 8) % 14;
+      Tape extra = expandTape(cw, 64);
+      while (in.v.size() < want) {
+        in.v.push_back(in.v[extra.next() % std::min(kpos, in.v.size())]);
+        in.d.push_back(1 + (ll)(extra.next() % 5));
+      }
+      R.classify("sinks:17+-on-few-positions");
+    }
+  }
   // decided last: the same instance with every supply and demand scaled by a common factor so
   // that the totals leave the 32-bit range (areas in database units) while each product
   // amount x distance stays far inside 64 bits
